@@ -467,3 +467,12 @@ def r7(ctx: Ctx) -> None:
                 ctx.report(f.where, f"splitter-levels {f.qualname}", f"{f.qualname} can hand a negative level count to the recursive splitter, whose base case "
                            "'levels == 0' is then never reached", lineno=n.lineno, levels=show(lv)[:200])
     ctx.require(n_callers >= 2, "callers of the recursive splitter not found")
+
+
+
+@rule("C02", "R8.geometry-primitives", "SHARED(C18)",
+      "the cuts are exact: Rectangle.split / split_horizontal / split_vertical / duplicate satisfy the C18 tiling laws (pieces abut at the cut and at the parent's borders, keep the other dimension and the parent's attributes), and the overlap test of the constructor is the exact one -- the C18 rules evaluated for the helpers refinement calls", floor=10)
+def shared_geometry(ctx: Ctx) -> None:
+    from . import C18 as _c18
+    from .common import support
+    support(ctx, [_c18.r1, _c18.r3, _c18.r4, _c18.r5, _c18.r6], {"Rectangle.split", "Rectangle.split_horizontal", "Rectangle.split_vertical", "Rectangle.duplicate", "Rectangle.overlap", "Rectangle.area_overlap", "Rectangle.area", "Rectangle.bounding_box"})
